@@ -14,6 +14,11 @@ response  {"stage":"build","err":e}  when the initial definition is rejected, el
            "versions":k, "final_sp":[..]}
 `def_ver` = number of successful mutator calls the snapshot's definition includes, `def_at` = index in the
 history of the last of them (-1: the initial definition).
+
+Driver op `canary2`: TWO live instances (`Canary.pstep`), every history entry carries `"inst": 0|1`.
+request   {"op":"canary2", "cfg":..., "shared": bool (default: `Canary.sourceShared`), "model": specA, "model_b": specB,
+           "history":[ {..., "inst":0|1} ...]}
+response  {"steps":[ the same objects as `canary` (without `def_at`), each with "inst" ]}
 -/
 import Pygom.Canary
 import Pygom.Ops
@@ -75,9 +80,55 @@ def opCanary (j : Json) : Except String Json := do
     let sN := runState cfg s0 ops
     pure (Json.mkObj [("steps", Json.arr steps.toArray), ("versions", (sN.ver : Nat)), ("final_sp", strsToJson sN.sp)])
 
+def whoOfJson (j : Json) : Who :=
+  match (fld j "inst").getNat?.toOption.getD 0 with
+  | 0 => .A
+  | _ => .B
+
+def whoToNat : Who → Nat
+  | .A => 0
+  | .B => 1
+
+/-- runs `Canary.pstep` itself (the function the two-instance theorems of Props/C08.lean are about) -/
+def canary2Loop (cfg : Cfg) (shared : Bool) : PState → List (Who × Op) → List Json → List Json
+  | _, [], acc => acc.reverse
+  | p, (w, op) :: ops, acc =>
+    let r := pstep cfg shared p (w, op)
+    let s := p.get w
+    let s' := r.1.get w
+    let inst : Json := (whoToNat w : Nat)
+    let js : Json :=
+      match op, r.2 with
+      | .mutate _, _ =>
+        Json.mkObj [("inst", inst), ("kind", "mutate"), ("ok", Json.bool (s'.ver != s.ver)), ("ver", (s'.ver : Nat))]
+      | .setParams _, _ =>
+        Json.mkObj [("inst", inst), ("kind", "set_params"), ("sp", strsToJson s'.sp)]
+      | .evaluate e _ _, some o =>
+        Json.mkObj [("inst", inst), ("kind", "evaluate"), ("name", e.name), ("def_ver", (o.used.ver : Nat)),
+                     ("sp", strsToJson o.used.sp), ("recompiled", Json.bool o.recompiled), ("cur_ver", (o.curVer : Nat)),
+                     ("nvals", (o.pvals.length : Nat)),
+                     ("fresh", Json.bool (o.used.ver == o.curVer && o.used.sp == freshSp o.cur)), ("flags", flagsToJson s')]
+      | .evaluate e _ _, none => Json.mkObj [("inst", inst), ("kind", "evaluate"), ("name", e.name), ("err", "no observation")]
+    canary2Loop cfg shared r.1 ops (js :: acc)
+
+def opCanary2 (j : Json) : Except String Json := do
+  let specA ← specOfJson (fld j "model")
+  let specB ← specOfJson (fld j "model_b")
+  let cfg := if (fld j "cfg").getStr?.toOption.getD "source" == "as_found" then asFoundCfg else sourceCfg
+  let shared := (fld j "shared").getBool?.toOption.getD sourceShared
+  let hist ← (fld j "history").getArr?
+  let ops ← hist.toList.mapM (fun h => do pure (whoOfJson h, ← canaryOpOfJson h))
+  match buildModel specA, buildModel specB with
+  | .error e, _ => pure (Json.mkObj [("stage", "build"), ("err", e.toString)])
+  | _, .error e => pure (Json.mkObj [("stage", "build_b"), ("err", e.toString)])
+  | .ok mA, .ok mB =>
+    let p0 := pinit cfg mA (List.replicate mA.params.length 0) mB (List.replicate mB.params.length 0)
+    pure (Json.mkObj [("steps", Json.arr (canary2Loop cfg shared p0 ops []).toArray)])
+
 def handleCanary (op : String) (j : Json) : Option (Except String Json) :=
   match op with
   | "canary" => some (opCanary j)
+  | "canary2" => some (opCanary2 j)
   | _ => none
 
 end Pygom
